@@ -332,6 +332,13 @@ def generate(repo):
     old = open(OUT).read() if os.path.exists(OUT) else None
     if old != text:
         open(OUT, "w").write(text)
+    # the same KeyType numbers for the harness's exhaustive sweep (harness/src/c18_gen.rs, include!d)
+    rs = os.path.join(HERE, "..", "harness", "src", "c18_gen.rs")
+    nums = adm[0] if adm else []
+    rtext = ("// GENERATED by tools/gen_c18_sites.py from src/schema/keys.proto on every check. Do not edit.\n"
+             "pub const KEY_TYPE_NUMBERS: &[u64] = &[" + ", ".join(str(n) for n in nums) + "];\n")
+    if not os.path.exists(rs) or open(rs).read() != rtext:
+        open(rs, "w").write(rtext)
     missing = []
     if not sites:
         missing.append(("PEER_ID_SITES", "src", "no derivation site found"))
